@@ -64,7 +64,7 @@ class SpecSeq(object):
         s_h = [k >= 0, n > k, lenf(n), nth(n), F(*(ps + [n + 1])) == z3.Concat(F(*(ps + [n])), self.elem(*(ps + [n])))]
         out += [('speclib/%s/nth/base' % self.name, b_h, nth(k + 1)),
                 ('speclib/%s/nth/step' % self.name, s_h, nth(n + 1))]
-        if self.elem_len == 1 and self.result != Doc and self.result != DocList:
+        if getattr(self, 'want_member_lemma', False) and self.elem_len == 1 and self.result != Doc and self.result != DocList:
             # membership lemma (member_lemma) by induction on n, for a fixed y
             y = z3.FreshConst(self.result.basis(), 'y'); j = z3.Int('j!mlp')
             def mem(n_): return z3.Contains(F(*(ps + [n_])), z3.Unit(y)) == z3.Exists([j], z3.And(0 <= j, j < n_, self.elem(*(ps + [j]))[0] == y))
